@@ -95,9 +95,9 @@ theorem em_exp_args_nonpos {n : ℕ} (q : Fin n → ℝ) (qmax eps Δ : ℝ) (he
 
 /-- MST's and adaptive grid's own primitives: coefficient `ε/(2Δ)`, and `ε/Δ` only in the declared
 monotonic variant -/
-theorem mst_em_coefficient (eps Δ q : ℝ) :
-    mst_em_scores (mst_em_coef false) eps Δ q = eps / (2 * Δ) * q ∧
-    mst_em_scores (mst_em_coef true) eps Δ q = eps / Δ * q := by
+theorem mst_em_coefficient (eps Δ q qmax : ℝ) :
+    mst_em_scores (mst_em_coef false) eps Δ q qmax = eps / (2 * Δ) * (q - qmax) ∧
+    mst_em_scores (mst_em_coef true) eps Δ q qmax = eps / Δ * (q - qmax) := by
   constructor <;>
     simp only [mst_em_scores, mst_em_coef, Bool.false_eq_true, reduceIte] <;> pgm_arith
 
